@@ -55,11 +55,13 @@ pub fn gen_scenario(rng: &mut Rng, with_eval: bool) -> Scenario {
     let batch = match rng.below(6) {
         _ if scale() && n >= 256 && rng.chance(0.6) => match rng.below(3) {
             0 => n,
-            1 => n + rng.range(1, 2),
+            // (B > N; now and then the 'one full batch' idiom: the largest value there is)
+        1 => if rng.chance(0.15) { usize::MAX } else { n + rng.range(1, 2) },
             _ => rng.range(256, n),
         },
         0 => 1,
-        1 => n + rng.range(1, 2),
+        // (B > N; now and then the 'one full batch' idiom: the largest value there is)
+        1 => if rng.chance(0.15) { usize::MAX } else { n + rng.range(1, 2) },
         2 => n,
         _ => {
             if n >= 17 {
